@@ -41,8 +41,16 @@ claim("C06",
       "(bit-vector and integer encodings), witnesses replayed through the unpatched HDS class.",
       TRUST, "symbolic execution of hdd.py (HDS) + z3 equivalence against a specification oracle", "4.6")
 
+claim("C01",
+      "For every enumerated (cluster size, version, L2 format, data-file, backing) configuration and every symbolic "
+      "virtual size, L1/L2 placement and content (64-bit), backing length and 512-aligned request of up to N clusters, "
+      "the real QCow2.__init__/_read/_yield_runs/_read_compressed and the cluster-type helpers return exactly the bytes "
+      "the qcow2.txt oracle names (compressed clusters: the same inflate input range, window and cap); decided per path "
+      "by z3, witness images (with crafted deflate streams) replayed through the unpatched QCow2 class.",
+      TRUST, "symbolic execution of qcow2.py + z3 equivalence against a specification oracle", "4.1")
+
 PENDING = "check not built yet in this round (planned: see DESIGN.md section 4)"
-for _p in ("C01", "C02", "C07", "C08", "C09", "C10", "C11", "C12", "C13", "C14", "C15", "C17", "C20"):
+for _p in ("C02", "C07", "C08", "C09", "C10", "C11", "C12", "C13", "C14", "C15", "C17", "C20"):
     NOT_APPLICABLE[_p] = PENDING
 NOT_APPLICABLE["C16"] = ("the property's content (cstruct writers, AES-GCM, PBKDF2) sits behind C boundaries that would have "
                          "to be stubbed; nothing of the repository's own arithmetic would remain to be decided (DESIGN 5)")
